@@ -7,7 +7,8 @@
    IOPRIO_CLASS_NONE (= 0) are sets. *)
 From PV Require Export C18.Handle.
 
-Inductive pyval := PNone | PInt (z : Z) | PList (l : list Z).
+Inductive pyval := PNone | PInt (z : Z) | PList (l : list Z)
+                | PIter (s : shape) (l : list Z).   (* an iterable of that shape yielding l *)
 Inductive method := MNice | MIonice | MAffinity | MRlimit.
 Record call := { c_pos : list pyval; c_kw : list (string * pyval) }.
 
@@ -49,7 +50,7 @@ Definition bind (m : method) (c : call) : outcome (list pyval) :=
   else do rest <- bind_rest (skipn np ps) np (required m) (c_kw c); Val (c_pos c ++ rest).
 
 Definition opt_int (v : pyval) : outcome (option Z) :=
-  match v with PNone => Val None | PInt z => Val (Some z) | PList _ => OutOfModel end.
+  match v with PNone => Val None | PInt z => Val (Some z) | _ => OutOfModel end.
 (* the bound values as a request ([option] = "is not None") *)
 Definition to_req (m : method) (vals : list pyval) : outcome req :=
   match m, vals with
@@ -57,9 +58,12 @@ Definition to_req (m : method) (vals : list pyval) : outcome req :=
   | MIonice, [c; v] => do x <- opt_int c; do y <- opt_int v; Val (Ionice x y)
   | MAffinity, [PNone] => Val (Affinity None)
   | MAffinity, [PList l] => Val (Affinity (Some l))
+  | MAffinity, [PIter sh l] => Val (AffinityIt sh l)
   | MRlimit, [PInt res; PNone] => Val (Rlimit res None)
   | MRlimit, [PInt res; PList l] => Val (Rlimit res (Some l))
   | MRlimit, [PInt res; PInt v] => Val (RlimitScalar res v)
+  | MRlimit, [PInt res; PIter sh l] =>      (* len() of an iterator object: TypeError, like a scalar *)
+    if oneshot sh then Val (RlimitScalar res 0) else Val (Rlimit res (Some l))
   | _, _ => OutOfModel
   end.
 
